@@ -1,8 +1,8 @@
 package main
 
 import (
-	stded "crypto/ed25519"
 	stdecdsa "crypto/ecdsa"
+	stded "crypto/ed25519"
 	"math/rand"
 	"time"
 
